@@ -199,6 +199,41 @@ def run_one(mod, case, ctx):
     return ctx.case_viol
 
 
+def start_cover(names):
+    """Line coverage (sys.monitoring) of the anchored functions 'mod.func'."""
+    if not names:
+        return None
+    import sys as _sys
+    from tvmon.interpose import LineCov
+    funcs = {}
+    for nm in names:
+        modname, fname = nm.split('.', 1)
+        m = _sys.modules.get(f'teneva.{modname}')
+        obj = m
+        try:
+            for part in fname.split('.'):
+                obj = getattr(obj, part)
+            funcs[nm] = obj
+        except AttributeError:
+            continue
+    cov = LineCov(funcs)
+    try:
+        cov.__enter__()
+    except RuntimeError:
+        return None
+    return cov
+
+
+def stop_cover(cov):
+    if cov is None:
+        return {}
+    out = {}
+    for code, (name, lines) in cov.codes.items():
+        out[name] = {'hit': sorted(cov.hit[code] & lines), 'lines': sorted(lines)}
+    cov.__exit__(None, None, None)
+    return out
+
+
 def worker_main(pid, tier, seed, shard, nshards, out, budget_s):
     t0 = time.time()
     import_teneva()
@@ -208,6 +243,7 @@ def worker_main(pid, tier, seed, shard, nshards, out, budget_s):
     mine = cases[shard::nshards]
     if hasattr(mod, 'setup_worker'):
         mod.setup_worker(ctx)
+    cov = start_cover(getattr(mod, 'COVER', []))
     done = 0
     truncated = False
     for case in mine:
@@ -221,6 +257,7 @@ def worker_main(pid, tier, seed, shard, nshards, out, budget_s):
     if hasattr(mod, 'finish_worker'):
         mod.finish_worker(ctx)
     res = ctx.dump()
+    res['cover'] = stop_cover(cov)
     res.update({'n_cases_total': len(cases), 'n_mine': len(mine), 'done': done,
         'truncated': truncated, 'wall_s': time.time() - t0})
     with open(out, 'w') as f:
